@@ -300,7 +300,7 @@ def uk2dt(t, tzinfo = None):
     if ambiguity.search(t) is not None:
         if res.day<13:
             res = dt(res.year, res.day, res.month, res.hour, res.minute, res.second, res.microsecond)
-        elif int(t[:2].replace('-','').replace('/',''))!=res.day:
+        elif int(t[:2].replace('-','').replace('/','').replace('.','').replace(' ',''))!=res.day:
             raise ValueError('date %s is not in UK date format'%t)
     elif yyyymm.search(t) is not None or yyyymmm.search(t) is not None:
         res = datetime.datetime(res.year, res.month, 1)
@@ -315,7 +315,7 @@ def us2dt(t, tzinfo = None):
     elif t.lower() == 'now':
         return datetime.datetime.now()
     res = parser.parse(t)
-    if ambiguity.search(t) is not None and res.month != int(t[:2].replace('-','').replace('/','')):
+    if ambiguity.search(t) is not None and res.month != int(t[:2].replace('-','').replace('/','').replace('.','').replace(' ','')):
         raise ValueError('the date is not in US format')
     if yyyymm.search(t) is not None or yyyymmm.search(t) is not None:
         res = datetime.datetime(res.year, res.month, 1)
